@@ -88,6 +88,9 @@ func (ex *Exec) callWith(f *frame, st *State, instr ssa.Instruction, cc *ssa.Cal
 		ex.builtin(f, st, instr, b, cc, res, args)
 		return
 	}
+	if ex.lockMode && len(ex.V.specs.lockOrders) > 0 && !f.inline {
+		ex.lockOrderAtCall(f, st, cc, pos)
+	}
 	sig := cc.Signature()
 	if cc.IsInvoke() {
 		recv := f.val(cc.Value)
@@ -339,7 +342,7 @@ func (ex *Exec) havocSet(st *State, mods map[string]bool) {
 	ex.advanceClock(st)
 	if mods["*"] {
 		for _, k := range sortedKeys(ex.V.compSorts) {
-			if k == compAlloc || strings.HasPrefix(k, "LK:") || strings.HasPrefix(k, "LA:") || strings.HasPrefix(k, "G:") {
+			if k == compAlloc || strings.HasPrefix(k, "LK:") || (strings.HasPrefix(k, "LA:") || strings.HasPrefix(k, "LH:")) || strings.HasPrefix(k, "G:") {
 				continue
 			}
 			ex.havoc(st, k)
@@ -357,7 +360,7 @@ func (ex *Exec) havocSet(st *State, mods map[string]bool) {
 			cs, star := ex.V.contractComps(ct)
 			if star {
 				for _, c := range sortedKeys(ex.V.compSorts) {
-					if c == compAlloc || strings.HasPrefix(c, "LK:") || strings.HasPrefix(c, "LA:") || strings.HasPrefix(c, "G:") {
+					if c == compAlloc || strings.HasPrefix(c, "LK:") || (strings.HasPrefix(c, "LA:") || strings.HasPrefix(c, "LH:")) || strings.HasPrefix(c, "G:") {
 						continue
 					}
 					ex.havoc(st, c)
@@ -602,6 +605,20 @@ func (ex *Exec) lockIntrinsic(f *frame, st *State, callee *ssa.Function, cc *ssa
 		ac := "LA:" + strings.TrimPrefix(comp, "LK:")
 		la := ex.get(st, ac, arraySort(SInt, SInt))
 		ex.set(st, ac, store(la, l.ref, app(SInt, "+", sel(la, l.ref), intLit(1))))
+		if ex.lockMode {
+			ex.lockOrderCheck(f, st, detail, "", pos)
+		}
+	}
+	// number of mutexes of this kind the goroutine holds (for the declared acquisition order)
+	if ex.lockMode && len(ex.V.specs.lockOrders) > 0 {
+		hc := "LH:" + detail
+		held := ex.heldCount(st, hc)
+		switch op {
+		case "Lock", "RLock":
+			ex.set(st, hc, app(SInt, "+", held, intLit(1)))
+		default:
+			ex.set(st, hc, app(SInt, "-", held, intLit(1)))
+		}
 	}
 	switch op {
 	case "Lock":
@@ -626,6 +643,72 @@ func (ex *Exec) lockIntrinsic(f *frame, st *State, callee *ssa.Function, cc *ssa
 		ex.set(st, comp, store(lk, l.ref, intLit(0)))
 	}
 	return true
+}
+
+// heldCount: how many mutexes of one kind this goroutine holds; none at entry unless the contract requires one of that kind.
+func (ex *Exec) heldCount(st *State, hc string) Term {
+	ex.regComp(hc, SInt)
+	if t, ok := st.heap[hc]; ok {
+		return t
+	}
+	pre := ex.sc.declare("pre:"+hc, SInt)
+	if !ex.lhInit[hc] {
+		ex.lhInit[hc] = true
+		if ex.lkRequired["LK:"+strings.TrimPrefix(hc, "LH:")] {
+			ex.sc.axiom(app(SBool, ">=", pre, intLit(0)))
+		} else {
+			ex.sc.axiom(eq(pre, intLit(0)))
+		}
+	}
+	return pre
+}
+
+// lockOrderCheck: acquiring a mutex of kind a (directly, or inside the callee named via) while holding a mutex that the
+// declared order places AFTER a is an inversion (two goroutines doing the two orders deadlock).
+func (ex *Exec) lockOrderCheck(f *frame, st *State, a string, via string, pos token.Pos) {
+	for _, o := range ex.V.specs.lockOrders {
+		if o[0] != a {
+			continue
+		}
+		held := ex.heldCount(st, "LH:"+o[1])
+		detail := "order:" + o[0] + "<" + o[1]
+		desc := "acquiring " + o[0] + " while holding a " + o[1] + " (declared order: " + o[0] + " first)"
+		if via != "" {
+			detail += "@" + via
+			desc += " inside " + via
+		}
+		ex.oblige(f, st, "lock", detail, "", pos, eq(held, intLit(0)), desc)
+	}
+}
+
+// lockOrderAtCall: whatever the callee may lock is locked while the caller's mutexes are held.
+func (ex *Exec) lockOrderAtCall(f *frame, st *State, cc *ssa.CallCommon, pos token.Pos) {
+	var targets []*ssa.Function
+	if callee := cc.StaticCallee(); callee != nil {
+		switch callee.String() {
+		case "(*sync.Mutex).Lock", "(*sync.RWMutex).Lock", "(*sync.RWMutex).RLock", "(*sync.Mutex).Unlock", "(*sync.RWMutex).Unlock", "(*sync.RWMutex).RUnlock":
+			return
+		}
+		targets = append(targets, callee)
+	} else if cc.IsInvoke() {
+		targets = ex.V.implementations(cc)
+	} else {
+		for h := range ex.V.addrTaken {
+			if types.Identical(stripRecv(h.Signature), stripRecv(cc.Signature())) {
+				targets = append(targets, h)
+			}
+		}
+	}
+	seen := map[string]bool{}
+	for _, t := range targets {
+		for _, a := range sortedKeys(ex.V.acquires(t)) {
+			if seen[a] {
+				continue
+			}
+			seen[a] = true
+			ex.lockOrderCheck(f, st, a, shortFn(t), pos)
+		}
+	}
 }
 
 func (ex *Exec) lockComp(l *Loc) string {
